@@ -5,3 +5,4 @@ pub mod coqfmt;
 pub mod gens;
 pub mod eval;
 pub mod report;
+pub mod models;
